@@ -1,7 +1,7 @@
 """
 C09 - the first error stops the simulation and is the one that gets reported.
 
-All orderings of 1..3 error sources of different kinds - handler error (H), handler interrupted by a failing nested event (N), output calculation
+All orderings of 1..3 error sources of different kinds - handler error (H), handler error reached through a combinational block's output event, i.e. inside the simulation task (G), handler interrupted by a failing nested event (N), output calculation
 error (C), failing monitored block task (M), failing / returning supporting task (S / R),
 abort(exc) (A), 'abort' control event (E), shutdown() (X), cancellation of the task (K) - and
 the non-fatal kinds unknown event type (U), missing event parameter (P) fired from timer
@@ -43,9 +43,9 @@ ASSUMPTIONS = [
 ]
 
 T0 = 4          # the sources fire at T0 + their instant; the start-up is over by then
-FATAL = 'HCMAEN'
+FATAL = 'HCMAENG'
 STOPS = 'XKR'
-KINDS = 'HCMAEXKSRUPN'
+KINDS = 'HCMAEXKSRUPNG'
 
 
 def configs(tier):
@@ -87,6 +87,9 @@ def configs(tier):
                     seq = tuple(zip(ks, ts))
                     if ok_for(entry, seq):
                         out.append(dict(kind='seq', entry=entry, seq=seq))
+    for c in [c for c in out if c['kind'] == 'seq' and any(k == 'M' for k, _t in c['seq'])
+              and len(c['seq']) <= 2]:
+        out.append(dict(c, mode='task'))
     for entry in ('run_forever', 'run'):
         for exc in ('fault', 'cancel'):
             for then in (None, 'H', 'A'):
@@ -114,6 +117,12 @@ def one_exec(cfg, chooser):
                                                       'event': ('raise', excs['H'])})
         okblk = lblock_class()('okblk', log=log, cfg={'init_regular': ('set', 0)})
 
+        gdst = lblock_class()('gdst', log=log, cfg={'init_regular': ('set', 0),
+                                                      'event': ('raise', excs['G'])})
+        ginp = edzed.Input('ginp', initdef=0)
+        edzed.FuncBlock('gfb', func=lambda a: a, on_output=edzed.Event(
+            gdst, 'ev', efilter=edzed.not_from_undef)).connect(ginp)
+
         def nested_bad(blk, etype, data):
             # the handler is interrupted half way by a nested event with a missing parameter:
             # for the inner block a caller's error, for this block an error inside its handler
@@ -133,9 +142,14 @@ def one_exec(cfg, chooser):
             return a
         edzed.FuncBlock('fb', func=calc).connect(inp)
         mtime = [t for k, t in seq if k == 'M']
+
+        def task_fails(_blk):
+            # the failure of a monitored task is an error delivered to the simulator right now
+            obs['delivered'].append(('task', excs['M'], sim.now))
+            raise excs['M']
         lblock_class(maintask=True)('mblk', log=log, cfg={
             'init_regular': ('set', 0),
-            'maintask': (T0 + mtime[0], ('raise', excs['M'])) if mtime else (None, None)}, stop_timeout=5)
+            'maintask': (T0 + mtime[0], ('call', task_fails)) if mtime else (None, None)}, stop_timeout=5)
         # non-fatal trouble makers
         lblock_class(ainit=True, ifv=True)('badinit', log=log, cfg={
             'ainit': (0.5, ('raise', Fault('init_async')))}, init_timeout=3, initdef='d')
@@ -167,6 +181,8 @@ def one_exec(cfg, chooser):
                     edzed.ExtEvent(inp).send('boom')
                 elif kind == 'N':
                     edzed.ExtEvent(nblk, 'ev').send(1)
+                elif kind == 'G':
+                    edzed.ExtEvent(ginp).send('go')
                 elif kind == 'A':
                     circuit.abort(excs['A'])
                 elif kind == 'E':
@@ -216,7 +232,15 @@ def one_exec(cfg, chooser):
             t0 = T0
             for k, t in seq:
                 if k not in 'SRM':
-                    loop.call_at((t0 + t) * TICK / 1_000_000, fire, k)
+                    if cfg.get('mode') == 'task':
+                        # fired from a task woken at that instant: it competes with the failing
+                        # monitored task (also woken by a timer) under every tie order
+                        async def fire_later(k=k, t=t):
+                            await loop.sleep_until_us((t0 + t) * TICK)
+                            fire(k)
+                        asyncio.ensure_future(fire_later())
+                    else:
+                        loop.call_at((t0 + t) * TICK / 1_000_000, fire, k)
             await asyncio.sleep(t0 + 3 - sim.now)
             state['ready_mid'] = circuit.is_ready()
             state['error_mid'] = circuit.error
@@ -317,7 +341,7 @@ def judge(cfg, obs):
     # expected kind of the first error: identity / documented wrapper
     if error is not None and not is_cancel(error):
         cause = error.__cause__
-        known = [excs[k] for k in 'HCMAEN']
+        known = [excs[k] for k in 'HCMAENG']
         if error not in known and cause not in known:
             viol.append(('foreign-error', f"{tag}: Circuit.error = {error!r} (cause {cause!r})"))
         if (error is excs['H']) or (cause is excs['H'] and not isinstance(error, edzed.EdzedCircuitError)):
@@ -438,7 +462,7 @@ def run_config(cfg):
         acc.execs += 1
         acc.choice_points += sum(1 for t in ch.trace if t[0] > 1)
         st = obs['state']
-        acc.outcome((cfg['entry'], cfg['seq'], tuple(k for k, _e, _t in obs['delivered']),
+        acc.outcome((cfg['entry'], cfg['seq'], cfg.get('mode'), tuple(k for k, _e, _t in obs['delivered']),
                      repr(st.get('error')), repr(st.get('main_result'))))
         for sig, msg in judge(cfg, obs):
             acc.violation(f"C09:{sig}", msg, cfg=cfg, choices=ch.choices)
